@@ -367,3 +367,45 @@ def avz_amplitude_peaks_on_the_cherenkov_cone_sampled():
 @harness(clause="bounded-cone-peak", bounded=15, label="B")
 def arz_amplitude_peaks_on_the_cherenkov_cone_sampled():
     _cone_peak(ARZ)
+
+
+# ---------------------------------------------------------------------------
+# ARZ off the cone: the index bookkeeping that cuts the convolution down to one value per sample.
+# The statements from `n_shift += n_Q_negative` to the computation of A are extracted mechanically from
+# shower_signal on every run (dropped: everything before - building Q, RA_C and their convolution - and the final
+# `return np.diff(A) / viewing_distance`); the convolution enters as an arbitrary array of the length the code
+# gives it (n_Q + n_RAC - 1 = N*dt_divider + n_extra).
+# ---------------------------------------------------------------------------
+
+@harness(clause="off-cone-bookkeeping", label="A")
+def arz_off_cone_bookkeeping_yields_one_value_per_sample_at_the_right_offset():
+    block = extract_block(ARZ + ".shower_signal", "n_shift += n_Q_negative", "A = (convolution",
+                          ["self", "convolution", "n_shift", "n_Q_negative", "n_extra", "dt_divider", "Q", "dz", "n", "theta",
+                           "z_to_t", "N"])
+    N = integer("N", 3, 50)
+    d = integer("dt_divider", 1, 20)
+    e = integer("n_extra", -200, 200)
+    s0 = integer("n_shift", -400, 400)
+    nq = integer("n_Q_negative", 0, 100)
+    s = s0 + nq
+    conv = absarr("convolution")
+    L = N * d + e
+    assume(And(len(conv) == L, L >= 1))
+    # the two early exits of shower_signal have not been taken
+    assume(And(-s < N * d, s - e < N * d))
+    th = real("theta", 0, pi)
+    n = real("index", 1.01, 2)
+    z2t = real("z_to_t", -1e-8, 1e-8)
+    assume(z2t != 0)
+    use_lib_stub(["np.trapz", "np.trapezoid"], lambda y, x=None, dx=1, axis=-1: real("LQ_tot", 1e-6, 1e6))
+    out = block(obj(ARZ), conv, s0, nq, e, d, symarr("Q"), real("dz", -1, 1), n, th, z2t, N)
+    A = out["A"]
+    cut = out["convolution"]
+    prove("one-value-per-sample-plus-one", len(A) == N)
+    j = fresh_index("j", N)
+    i = s + j * d          # index into the untrimmed convolution that sample j must come from
+    want = ite(And(i >= 0, i < L), conv[i if NATIVE else i], 0) if NATIVE else None
+    if i >= 0 and i < L:
+        prove("sample-j-is-the-convolution-at-n_shift-plus-j-dt_divider", eq(cut[j], conv[i]))
+    else:
+        prove("samples-outside-the-convolution-are-zero", eq(cut[j], 0))
